@@ -148,6 +148,15 @@ func TestC19(t *testing.T) {
 			for _, args := range [][]string{{"--", "ok.bn"}, {"ok.bn", "--"}, {"-v", "ok.bn"}, {"-", "ok.bn"}, {"--help", "ok.bn"}, {"", "ok.bn"}, {"ok.bn", ""}, {"--", "--"}} {
 				chk("pair-"+strings.Join(args, "+"), args, is(64), false, "two arguments must exit 64 with a message and run nothing, whatever they look like")
 			}
+			// every way in which reading the script can fail: a message, a non-zero status, nothing run
+			write("plain.bn")
+			os.Symlink("loop.bn", filepath.Join(dir, "loop.bn"))
+			os.Symlink("nowhere.bn", filepath.Join(dir, "dangling.bn"))
+			os.Symlink("ok.bn", filepath.Join(dir, "link.bn"))
+			for _, a := range []string{"plain.bn/inner.bn", "loop.bn", "dangling.bn", strings.Repeat("a", 300) + ".bn", "nodir/x.bn", "ok.bn/", "/proc/self/mem.bn", "/dev/null/x.bn", "\x00.bn"} {
+				chk("unreadable-"+a[:min(len(a), 24)], []string{a}, nonzero, false, "a script that cannot be read must exit non-zero with a message and run nothing")
+			}
+			chk("symlink", []string{"link.bn"}, is(0), true, "a readable script reached through a symbolic link must run")
 			chk("missing", []string{filepath.Join(dir, "missing.bn")}, nonzero, false, "an unreadable file must exit non-zero with a message")
 			os.MkdirAll(filepath.Join(dir, "d.bn"), 0o755)
 			chk("directory", []string{filepath.Join(dir, "d.bn")}, nonzero, false, "a directory named like a script must exit non-zero with a message")
@@ -179,13 +188,15 @@ func TestC19(t *testing.T) {
 					}
 				}
 			}
+			nGenerated := len(bodies)
 			bodies = append(bodies,
 				P+" 1;\n", P+" \"a\";\n"+P+" 2;", "", "\n\n", "// only a comment", P+" 1;\n#\n", P+" 1;\n\"open", P+" 1;\n/* open", P+" 1\n", P+" ;\n", "1 = 2;\n", P+" 1;\n}\n",
 				P+" 1;\n"+bn.KwVar+" "+bn.BLen+" = 2;\n", P+" 1;\n"+strings.Repeat("9", 400)+";\n", "x;\n", P+" 1;\nx;\n"+P+" 2;\n", P+" 1/0;", bn.KwBreak+";", P+" \"ok\";\n"+bn.KwReturn+" 1;\n")
-			for _, b := range bodies {
-				for _, tail := range []string{"", "\n", "\n\n", " ", "\r\n", "// trailing comment"} {
+			for bi, b := range bodies {
+				for _, tail := range []string{"", "\n", "\n\n", " ", "\r\n", "// trailing comment", "\t", "\r", "/* c */", ";", "\n// c", "\ufeff", "\x00"} {
 					k++
-					if !c.Mine(k) || (!c.Thorough && k%3 != 0) {
+					// the hand-written texts (empty file, comment only, …) with every ending in both tiers; a third of the generated ones in quick
+					if !c.Mine(k) || (!c.Thorough && bi < nGenerated && k%3 != 0) {
 						continue
 					}
 					c.c19Script(s, "outcome-classes", strings.TrimRight(b, "\n")+tail, "typed-line\nsecond\n", "class-matrix")
